@@ -160,6 +160,19 @@ def check(run):
                 if run.too_many():
                     return
             k += 1
+    # more stripes than any particle count in use (thread-count x stripe-count tables of tens of MB)
+    for npart, nthread in ((262145, 16), (600000, 8), (2**22 + 1, 2)):
+        if one_call(run, tsc, rng, 100000, npart, k % 3, np.float32, np.float32, bool(k % 2), nthread, 'uniform', 2000.0):
+            if run.too_many():
+                return
+        k += 1
+    # column-major positions (what np.array([x, y, z]).T hands over), sorted and unsorted, with and without weights
+    for dtype, wk, sort, nthread in ((np.float32, None, True, 4), (np.float64, np.float64, True, 16), (np.float32, None, False, 16), (np.float64, np.float64, True, 1)):
+        if one_call(run, tsc, rng, [1000, 100000][k % 2], [7, 64][k % 2], k % 3, dtype, wk, sort, nthread, fams[k % 4], 123.0, layout='fortran'):
+            if run.too_many():
+                return
+        k += 1
+    run.count('column_major_position_calls', 4)
     # prange write-set monitor on the interpreted body (decides every schedule from one execution): within one parallel loop no two
     # iterations may write the same row of any array -- outputs, per-thread tables, or scratch allocated inside the function
     from .. import hodrace
